@@ -35,8 +35,9 @@ package tso
 //@   props C01 C02 C05
 //@   requires t.tsoMux != nil
 //@   requires [window] savedTyped(t) && unixnano(next) < savedNano(t)
-//@   ensures [forward] ms(unixnano(next)) > ms(old(physNano(t))) ==> t.tsoMux.physical == next && t.tsoMux.logical == 0
+//@   ensures [forward] ms(unixnano(next)) > ms(old(physNano(t))) && (force || old(initialized(t))) ==> t.tsoMux.physical == next && t.tsoMux.logical == 0
 //@   ensures [noback] ms(unixnano(next)) <= ms(old(physNano(t))) ==> t.tsoMux.physical == old(t.tsoMux.physical) && t.tsoMux.logical == old(t.tsoMux.logical)
+//@   ensures [a-reset-memory-is-initialised-only-when-forced] !force && !old(initialized(t)) ==> t.tsoMux.physical == old(t.tsoMux.physical) && t.tsoMux.logical == old(t.tsoMux.logical)
 //@   ensures [window] old(windowInv(t)) ==> windowInv(t)
 //@   modifies t.tsoMux.physical, t.tsoMux.logical, t.tsoMux.updateTime, ghost evres
 
@@ -94,6 +95,15 @@ package tso
 //@   ensures [mono] old(initialized(t)) ==> ms(physNano(t)) >= ms(old(physNano(t)))
 //@   ensures [saved-mono] savedTyped(t) && (result == nil ==> savedNano(t) >= old(savedNano(t)))
 //@   at saveTimestamp 1 assert [persist-first] unixnano(save) == unixnano(next) + t.saveInterval
+// Mode `concurrent` (the function read with the other goroutines of the same member acting between its steps - it holds
+// tsoMux only inside getTSO and setTSOPhysical): an accepted reset (resetUserTimestamp, which saves under tsoMux) may
+// raise the saved window before this function's own save, unless saveMu is held (both functions compare with the saved
+// window and save under saveMu; the engine applies the interference also at the acquisition of saveMu): the update's
+// own save is never below the window already saved (failed before saveMu existed: fixed defect). A step-down (ResetTimestamp) may zero the memory before setTSOPhysical: the update
+// never forces an initialisation, and setTSOPhysical leaves a zeroed memory alone unless forced (fixed defect).
+//@   interfere saveTimestamp unless held t.saveMu havoc t.lastSavedTime.v : @concurrent savedTyped(t) && savedNano(t) >= old(savedNano(t)) && sane(savedNano(t))
+//@   at saveTimestamp 1 assert [never-below-the-window-already-saved] @concurrent unixnano(save) >= savedNano(t)
+//@   at setTSOPhysical 1 assert [the-periodic-update-never-forces-an-initialisation] !arg1
 //@   modifies t.tsoMux.physical, t.tsoMux.logical, t.tsoMux.updateTime, t.lastSavedTime.v, ghost evres, ghost etcdhas, ghost etcdval, ghost etcdlease, ghost etcdn, ghost etcdhas0, ghost etcdval0, ghost etcdlease0
 
 // C01/C02: a manual reset is refused unless strictly ahead (and not too far); it persists the window first.
